@@ -251,6 +251,10 @@ func (r *runner) harnessExts() map[string]jsonata.Extension {
 	}
 }
 
+// NestedCtxProbe: $xboth receives the context item when called with one
+// argument; the argument is itself a call of $xboth under another context.
+const NestedCtxProbe = `name.$xboth($$.nest.c.$xboth(1))`
+
 func (r *runner) handlerLog(s string) {
 	if t := engine.Current(); t != nil {
 		res := &r.results[t.ID][t.Op()]
@@ -695,6 +699,11 @@ func (r *runner) execOp(t *engine.Task, ti, oi int, op *Op, res *OpResult) {
 		}
 		r.priv[ti][op.Expr] = ei
 		res.Outcome = "compiled"
+	case "usleep": // microseconds
+		if d := int64(op.Version) * int64(time.Microsecond); d > 0 && r.now()+d < maxSimNanos {
+			t.Sleep(d)
+		}
+		res.Outcome = "slept"
 	case "sleep":
 		r.sleepFor(t, int64(op.Version))
 		res.Outcome = "slept"
@@ -929,6 +938,21 @@ func (r *runner) extChecks(res *Result, ti, oi int, op *Op, or *OpResult, ei *ex
 	if or.UndefIn > 0 && strings.Contains(ei.text, "$xundef(nosuch)") && !strings.Contains(ei.text, "$xundef(name)") {
 		r.report(res, Violation{Property: "C20", Class: "ext-handler-order", Oracle: "undefined-handler", Key: key, Task: ti, Op: oi,
 			Detail: "UndefinedHandler returned true but the function body was entered"})
+	}
+	// "prepend the context item": the item of the call's OWN site, also when
+	// the same extension is called inside its own argument list. Decided for
+	// one fixed shape whose value follows from the document alone.
+	if ei.text == NestedCtxProbe && op.Kind == "eval" && or.Fired == "" && len(ei.vars) == 0 {
+		if d := r.docs[op.Doc]; d != nil {
+			if m, ok := d.pristine.(map[string]interface{}); ok {
+				if name, ok := m["name"].(string); ok {
+					if want := strconv.Quote("both:" + name); or.Outcome != want {
+						r.report(res, Violation{Property: "C20", Class: "ext-context-foreign", Oracle: "nested-context-probe", Key: key, Task: ti, Op: oi,
+							Detail: fmt.Sprintf("outer call must receive its own context item %q, outcome %s", name, clip(or.Outcome, 200))})
+					}
+				}
+			}
+		}
 	}
 	// Extension doc: EvalContextHandler true => the context is inserted as
 	// the first argument; UndefinedHandler is called "with the same
